@@ -364,6 +364,11 @@ func (e *env) expr(x ast.Expr) (string, gty) {
 		}
 		return fmt.Sprintf("(%s.getD (Int.toNat %s) false)", xs, is), tPtr
 	case *ast.UnaryExpr:
+		if v.Op == token.AND {
+			if _, isId := v.X.(*ast.Ident); isId {
+				return "true", tPtr // the address of a variable: a non-nil pointer
+			}
+		}
 		s, ty := e.expr(v.X)
 		switch v.Op {
 		case token.SUB:
@@ -1860,6 +1865,12 @@ func (t *translator) translate(sp tspec) (res *tfun, why string) {
 			f.resTypes = append(f.resTypes, tBool)
 			f.capNames = append(f.capNames, nm+"Called")
 		}
+		if sp.captureEmit {
+			e.setVar("ev", tErr)
+			f.resNames = append(f.resNames, "ev")
+			f.resTypes = append(f.resTypes, tErr)
+			f.capNames = append(f.capNames, "ev")
+		}
 	}
 	as := map[string]bool{}
 	e.assigned(stmts, as)
@@ -2128,6 +2139,7 @@ func transAll(v1, v2 *pkg) string {
 		{file: "batcher.go", recv: "batcher", name: "WithMaxOperationTime", lean: "v2_WithMaxOperationTime", view: "_set", opaque: true, captureCalls: map[string]string{"panic": "panic"}},
 		{file: "batcher.go", recv: "batcher", name: "WithPauseTime", lean: "v2_WithPauseTime", view: "_set", opaque: true, captureCalls: map[string]string{"panic": "panic"}},
 		{file: "batcher.go", recv: "batcher", name: "WithErrorOnFullBuffer", lean: "v2_WithErrorOnFullBuffer", view: "_set", opaque: true, captureCalls: map[string]string{"panic": "panic"}},
+		{file: "batcher.go", recv: "batcher", name: "shutdown", lean: "v2_shutdown", view: "_ph", captureEmit: true, captureCalls: map[string]string{"r.buffer.shutdown": "bufShutdown"}},
 		{file: "batcher.go", recv: "batcher", name: "Flush", lean: "v2_Flush", view: "_fl", chanCap: map[string]string{"flush": "1"}},
 		{file: "batcher.go", recv: "batcher", name: "Pause", lean: "v2_Pause", view: "_pz", chanCap: map[string]string{"pause": "1"}},
 		{file: "batcher.go", recv: "batcher", name: "processBatch", lean: "v2_finishTail", view: "_fin", sliceAt: "var total int = 0", sliceN: 4,
@@ -2157,6 +2169,8 @@ func transAll(v1, v2 *pkg) string {
 		{file: "shared-resource.go", recv: "sharedResource", name: "clearPartitionId", lean: "v2_sr_clearPartitionId"},
 		{file: "shared-resource.go", recv: "sharedResource", name: "getAllocatedAndRandomUnallocatedPartition", lean: "v2_sr_pick", opaque: true},
 		{file: "shared-resource.go", recv: "sharedResource", name: "Start", lean: "v2_sr_requirements", until: "r.provision = make", view: "_req"},
+		{file: "shared-resource.go", recv: "sharedResource", name: "setPartitionId", lean: "v2_sr_setPartitionId"},
+		{file: "shared-resource.go", recv: "sharedResource", name: "shutdown", lean: "v2_sr_shutdown", view: "_ph", captureEmit: true},
 		{file: "shared-resource.go", recv: "sharedResource", name: "loop", lean: "v2_sr_grant", view: "_grant", sliceAt: "requested := time.Now()", sliceN: 9, loopBody: true,
 			sliceOut:     []string{"sleepCalled", "sleepArg", "markCalled"},
 			inputs:       map[string]string{"time.Now()": "now:int", "time.Since(requested)": "elapsed:int", "r.leaseManager.LeasePartition(ctx, id, index)": "granted:int"},
